@@ -509,6 +509,8 @@ func toSubdomainURL(hostname, path string, r *http.Request, inlineDNSLink bool, 
 	if err != nil {
 		return "", err
 	}
+	// RawFragment is only a hint for URL.String(): without Fragment it is ignored
+	u.Fragment = r.URL.Fragment
 	u.RawFragment = r.URL.RawFragment
 	u.RawQuery = r.URL.RawQuery
 	if rest != "" {
